@@ -1,7 +1,7 @@
 (* Property C08 - recorded positions and validation error locations are exact.
    Theorems only. *)
-From MF Require Import Lib.Base Lib.Regex Model.GrammarTypes Model.Lexer Model.LR Model.Api
-  Proofs.LexFacts Proofs.ParseFacts Proofs.GrammarFacts Gen.Grammar.
+From MF Require Import Lib.Base Lib.Regex Model.GrammarTypes Model.Lexer Model.LR Model.Transformer Model.Api
+  Proofs.LexFacts Proofs.ParseFacts Proofs.GrammarFacts Proofs.C08U Proofs.C08U_Named Gen.Grammar.
 
 (* The position formula of the property text: 1-based line = 1 + number of line
    feeds before the token, 1-based column = 1 + number of characters since the
@@ -32,6 +32,40 @@ Theorem C08_tree_token_positions :
     Forall (token_at text) (leaves (po_tree po)).
 Proof. exact (fun wc text po => tree_tokens_positions the_grammar the_hook wc text po the_grammar_lexers_ok). Qed.
 Print Assumptions C08_tree_token_positions.
+
+(* [U] the transformer half (Proofs/C08U.v, C08U_Named.v, by agent prover-c08:
+   a logical predicate preserved by all 48 callbacks and the comments pipeline):
+   for EVERY text and either comment mode, in the dictionary loads returns with
+   include_position=True every dict that has a __type__, at every depth, has a
+   __position__ record; its own line/column, the record filed under each keyword
+   (one record, a list of records for repeated keywords and POINTS, a dict of
+   records under CONFIG) and every [line, column] pair of a values list are the
+   line/column at which a token NAMED LIKE THAT KEYWORD (resp. like the block's
+   type) starts in the text - [positions_named_in_text] spells this out; the
+   guard on trees it needs is discharged for parser output by the grammar-
+   conformance theorem.  The single synthetic token (SYMBOLSET root) carries
+   (None, None), allowed only when the root is a symbolset. *)
+Theorem C08_recorded_positions_are_keyword_positions :
+  forall ic text v po,
+    parse_text the_grammar the_hook ic text = Ok po -> loads true ic text = Ok v ->
+    positions_named_in_text text (is_symbolset_root (po_tree po)) v.
+Proof. exact recorded_positions_are_named_text_positions. Qed.
+Print Assumptions C08_recorded_positions_are_keyword_positions.
+
+(* [R] what is NOT true of the code: "the own line of a block's record is a
+   number" - an attribute spelled LINE (or COLUMN) is filed under that very key
+   of the record and overwrites the block's own line (known finding
+   C08-keyword-named-line; same on mappyfile.loads: MAP LINE 5 END) *)
+Theorem C08_own_line_overwritten_refuted :
+  exists text c items c' p r,
+    loads true false text = Ok (VDict c items) /\
+    assoc s_position items = Some (VDict c' p) /\ assoc s_line p = Some (VDict DPlain r).
+Proof. exact own_line_is_a_number_refuted. Qed.
+Print Assumptions C08_own_line_overwritten_refuted.
+
+(* PARTIAL (not theorems): that the value positions of a record are in source
+   order, and create_message's choice of the record for a validation error
+   (covered by correspondence and the message-location hunter). *)
 
 (* non-vacuity: a two-line text with a tab; LAYER starts at line 2, column 2 *)
 Example C08_example :
